@@ -109,6 +109,7 @@ def gen_engine(
     broken_rules=False,
     shared_rules=False,
     big_blocks=False,
+    odd_names=0.0,
 ):
     nin, nout, nrb = rnd.randint(1, max_inputs), rnd.randint(1, 2), rnd.randint(1, 2)
     off = (lambda p: rnd.random() < p) if flags else (lambda p: False)
@@ -208,6 +209,8 @@ def gen_engine(
             spec["route"] = "constructors"  # sharing of rule objects does not survive the text forms (and copies are C13's business)
         if spec["route"] == "engine-configure" and not uniform(rnd, spec):
             spec["route"] = "constructors"
+    if odd_names and rnd.random() < odd_names:
+        unusual_names(rnd, spec)
     if descriptions:
         for part in spec["outputs"] + spec["blocks"]:
             part["description"] = rnd.choice(["", "", "some text: with a colon", "x = 1, y = 2 (approx.)"])
@@ -494,6 +497,41 @@ def exotic(rnd, spec, empty_engine_name=True):
         spec["outputs"].append(dict(name="idle", description="", enabled=True, minimum=0.0, maximum=1.0, lock_range=False, lock_previous=False, default_value=nan, aggregation=None, terms=[], kind="integral", defuzzifier=dict(cls="Centroid", resolution=100)))
     if rnd.random() < 0.2:
         spec["blocks"].append(dict(name="emptyblock", description="", enabled=True, conjunction="Minimum", disjunction="Maximum", implication="Minimum", activation=dict(cls="General", args=[]), rules=[]))
+    return spec
+
+
+VAR_NAMES = ["T", "t", "Temp", "temp", "TEMP", "is", "Is", "IS", "v_1", "_v", "If", "Then", "With", "And", "Or", "Any", "Very", "Not", "Speed", "speed"]
+TERM_NAMES = ["Low", "LOW", "low", "is", "Is", "High", "HIGH", "high", "T", "t", "And", "Then", "Any", "Not", "Very", "_", "l_0", "L_0"]
+
+
+def unusual_names(rnd, spec):
+    """legal but unusual names: names that differ only in case (two variables `T` and `t`, terms `Low` and `LOW` of one
+    variable), the word `is`, capitalised keywords and hedge names of the rule language, underscores and digits, one term
+    name used in several variables, a term named like a variable.  Every name stays unique where the library needs it to be
+    (variables among variables, terms within their variable)"""
+    rename, used = {}, set()
+    for v in spec["inputs"] + spec["outputs"]:
+        if rnd.random() < 0.8:
+            cands = [n for n in VAR_NAMES if n not in used]
+            # prefer a name that differs only in case from one already taken
+            close = [n for n in cands if n.lower() in {u.lower() for u in used}]
+            new = rnd.choice(close) if (close and rnd.random() < 0.6) else rnd.choice(cands)
+            rename[v["name"]] = new
+            used.add(new)
+        else:
+            used.add(v["name"])
+        tused = set()
+        for t in v["terms"]:
+            if rnd.random() < 0.8:
+                cands = [n for n in TERM_NAMES if n not in tused]
+                close = [n for n in cands if n.lower() in {u.lower() for u in tused}]
+                new = rnd.choice(close) if (close and rnd.random() < 0.6) else rnd.choice(cands)
+                rename[t["name"]] = new
+                tused.add(new)
+            else:
+                tused.add(t["name"])
+    apply_rename(spec, rename)
+    spec["odd_names"] = True
     return spec
 
 
